@@ -779,3 +779,58 @@ impl<'a, T> ExactSizeIterator for LenIter<'a, T> {
         self.claimed
     }
 }
+
+/// C04, a fixed family of near-miss pairs that cannot be cases of the campaign because a value of
+/// the second type cannot be written down: array lengths that differ only above a narrower integer
+/// width (a length fed to the hasher through a cast collides exactly there).  The bytes of a value of
+/// the first type are read as the second type; every entry must be a hash error.  Items are
+/// zero-sized, so the types exist for any length and an eps-copy result is a reference (no loop);
+/// full-copy is only tried for the lengths it can walk through.
+pub fn hash_family_obs() -> String {
+    use core::marker::PhantomData;
+    fn eps_code<U: Deserialize + TypeHash + AlignHash>(b: &[u8]) -> String {
+        let mut arena = Arena::new(1 << 12);
+        let placed = arena.place(0, b);
+        match catch_unwind(AssertUnwindSafe(|| {
+            let mut s = SliceWithPos::new(placed);
+            match deser::check_header::<U>(&mut s) {
+                Err(e) => Err(e),
+                Ok(()) => U::_deserialize_eps_inner(&mut s).map(|_| ()),
+            }
+        })) {
+            Ok(Ok(())) => "OK".into(),
+            Ok(Err(e)) => format!("E:{}", show_err(&e).split(':').next().unwrap_or("").to_string()),
+            Err(_) => "P".into(),
+        }
+    }
+    fn full_code<U: Deserialize>(b: &[u8]) -> String {
+        let mut r = CountReader { data: b, pos: 0 };
+        match catch_unwind(AssertUnwindSafe(|| U::deserialize_full(&mut r).map(|_| ()))) {
+            Ok(Ok(())) => "OK".into(),
+            Ok(Err(e)) => format!("E:{}", show_err(&e).split(':').next().unwrap_or("").to_string()),
+            Err(_) => "P".into(),
+        }
+    }
+    let mut out: Vec<String> = vec![];
+    macro_rules! pair {
+        ($name:expr, $v:expr, $u:ty, full) => {{
+            if let (_, Some(b)) = ser_obs(&$v) {
+                out.push(format!("{}~full={},eps={}", $name, full_code::<$u>(&b), eps_code::<$u>(&b)));
+            }
+        }};
+        ($name:expr, $v:expr, $u:ty, eps) => {{
+            if let (_, Some(b)) = ser_obs(&$v) {
+                out.push(format!("{}~eps={}", $name, eps_code::<$u>(&b)));
+            }
+        }};
+    }
+    pair!("[();1]/[();257]", [(); 1], [(); 257], full);
+    pair!("[();1]/[();65537]", [(); 1], [(); 65537], full);
+    pair!("[();1]/[();4294967297]", [(); 1], [(); 4294967297], eps);
+    pair!("[();0]/[();4294967296]", [(); 0], [(); 4294967296], eps);
+    pair!("[PhantomData<u64>;2]/[PhantomData<u64>;4294967298]", [PhantomData::<u64>; 2], [PhantomData<u64>; 4294967298], eps);
+    pair!("[PhantomData<u64>;3]/[PhantomData<u64>;259]", [PhantomData::<u64>; 3], [PhantomData<u64>; 259], full);
+    pair!("Vec<[();1]>/Vec<[();4294967297]>", vec![[(); 1]; 2], Vec<[(); 4294967297]>, eps);
+    pair!("[();1]/[();9223372036854775809]", [(); 1], [(); 9223372036854775809], eps);
+    out.join("|")
+}
